@@ -58,7 +58,7 @@ pest = {{ path = "{REPO}/pest" }}
 """
     p = os.path.join(d, "Cargo.toml")
     if not os.path.exists(p) or open(p).read() != toml: open(p, "w").write(toml)
-    shutil.copy(os.path.join(REPO, "Cargo.lock"), os.path.join(d, "Cargo.lock"))
+    copy_lockfile(d)
     mir = dump.dump("verif_gen", cwd=d, tag=f"{tag}" + ("-extras" if extras else ""), manifest=os.path.join(d, "Cargo.toml"))
     return d, mir, oks
 
